@@ -101,7 +101,9 @@ def mutate_eom(draw, c):
             e["custom_buffer_time"] = draw(st.sampled_from([240, 100]))
         elif m == "ch_bw" and c.get("mod_bandwidth"):
             # the channel's own bandwidth (pulses outside EOM blocks, default buffers, output)
-            c["mod_bandwidth"] = draw(st.sampled_from([x for x in (4, 8, 20, 40) if x != c["mod_bandwidth"]]))
+            # (another value altogether, or one so close that the whole-ns rise time is the same)
+            c["mod_bandwidth"] = draw(st.sampled_from([x for x in (4, 8, 20, 40) if x != c["mod_bandwidth"]]
+                                                      + [c["mod_bandwidth"] * 0.93, c["mod_bandwidth"] * 0.93]))
     return c
 
 
@@ -123,7 +125,9 @@ def mutate_channel(draw, c):
             c["max_duration"] = draw(st.sampled_from([2**26, 5000, 400]))
             c["max_duration"] = max(c["max_duration"], c.get("min_duration", 1))
         elif m == "bandwidth":
-            bw = draw(st.sampled_from([None, 4, 8, 20, 40]))
+            bw = draw(st.sampled_from([None, 4, 8, 20, 40, "near"]))
+            if bw == "near":
+                bw = c["mod_bandwidth"] * 0.93 if c.get("mod_bandwidth") else None
             if bw is None:
                 c.pop("mod_bandwidth", None)
                 c.pop("eom", None)
